@@ -183,6 +183,37 @@ class Gen:
     def authctx(self):
         return Rec((self.ctxinfo(), self.bytes_(32)))
 
+    def ids(self, n, small=4):
+        r = self.r
+        k = r.choice([0, 1, 2, 255, 256]) if r.chance(1, 6) else r.below(small)
+        return [self.bytes_(n + 1 if self.over and r.chance(1, 30) else n) for _ in range(k)]
+
+    def vbkendorsement(self):
+        return Rec((self.bytes_(32), self.bytes_(24), self.bytes_(24), self.bytes_(32)))
+
+    def altendorsement(self):
+        return Rec((self.bytes_(32), self.bytes_(self.blen(255, 40)), self.bytes_(self.blen(255, 40)), self.bytes_(24)))
+
+    def popstate(self, f):
+        r = self.r
+        es = [f() for _ in range(r.below(4))]
+        if es and r.chance(1, 4):
+            es.append(Rec((es[0][0],) + tuple(f())[1:]))   # duplicate id
+        return es
+
+    def storedbtc(self):
+        r = self.r
+        nrefs = r.choice([0, 1, 255, 256]) if r.chance(1, 5) else r.below(5)
+        return Rec((self.i32(), self.btcblock(), self.u32(), Rec((self.ids(32), [self.i32() for _ in range(nrefs)]))))
+
+    def storedvbk(self):
+        return Rec((self.i32(), self.vbkblock(), self.u32(),
+                    Rec((self.ids(32), self.ids(32), self.u32(), self.ids(32), self.popstate(self.vbkendorsement)))))
+
+    def storedalt(self):
+        return Rec((self.i32(), self.altblock(), self.u32(),
+                    Rec((self.ids(32), self.ids(32), self.ids(32), self.ids(12), self.popstate(self.altendorsement)))))
+
     def layers(self):
         r = self.r
         n = r.choice([0, 1, 2, 39, 40]) if r.chance(1, 3) else r.below(6)
@@ -249,7 +280,8 @@ class Gen:
         return getattr(self, t)()
 
 
-TYPES = ["address", "coin", "output", "btctx", "btcblock", "vbkblock", "altblock", "keystones", "ctxinfo", "authctx", "merklepath", "vbkmerklepath", "pubdata",
+NO_ENC = ["storedbtc", "storedvbk", "storedalt"]   # built only from bytes (no public constructor path in the harness)
+TYPES = ["vbkendorsement", "altendorsement", "storedbtc", "storedvbk", "storedalt", "address", "coin", "output", "btctx", "btcblock", "vbkblock", "altblock", "keystones", "ctxinfo", "authctx", "merklepath", "vbkmerklepath", "pubdata",
          "vbktx", "vbkpoptx", "atv", "vtb", "popdata"]
 CHECKED = ["atv", "vtb", "popdata", "vbkblock", "btcblock"]
 
@@ -359,6 +391,33 @@ class Enc:
     def authctx(self, c):
         return self.ctxinfo(c[0]) + c[1]
 
+    def endorsement(self, e):
+        return self.sbl(e[0], "eid") + self.sbl(e[1], "ehash") + self.sbl(e[2], "ehash") + self.sbl(e[3], "ehash")
+
+    vbkendorsement = endorsement
+    altendorsement = endorsement
+
+    def idlist(self, l):
+        return self.sbe(len(l), "count") + b"".join(self.sbl(x, "eid") for x in l)
+
+    def popstate_(self, l):
+        return self.sbe(len(l), "count") + b"".join(self.endorsement(e) for e in l)
+
+    def storedbtc(self, s):
+        a = s[3]
+        return (s[0] & 0xffffffff).to_bytes(4, "big") + self.btcblock_raw(s[1]) + s[2].to_bytes(4, "big") + \
+            self.idlist(a[0]) + self.sbe(len(a[1]), "count") + b"".join((x & 0xffffffff).to_bytes(4, "big") for x in a[1])
+
+    def storedvbk(self, s):
+        a = s[3]
+        return (s[0] & 0xffffffff).to_bytes(4, "big") + self.vbkblock_raw(s[1]) + s[2].to_bytes(4, "big") + \
+            self.idlist(a[0]) + self.idlist(a[1]) + a[2].to_bytes(4, "big") + self.idlist(a[3]) + self.popstate_(a[4])
+
+    def storedalt(self, s):
+        a = s[3]
+        return (s[0] & 0xffffffff).to_bytes(4, "big") + self.altblock(s[1]) + s[2].to_bytes(4, "big") + \
+            self.idlist(a[0]) + self.idlist(a[1]) + self.idlist(a[2]) + self.idlist(a[3]) + self.popstate_(a[4])
+
     def merklepath(self, m):
         raw = self.fixed32(m[0]) + self.fixed32(len(m[1]), "nlayers") + self.fixed32(4, "sizeofsize") + \
             (32).to_bytes(4, "big") + b"".join(self.sbl(l, "layer") for l in m[1])
@@ -403,7 +462,7 @@ def py_encode(c, t, v, plan=None):
 
 FIELD_LIMITS = {"count": [50000, 65535], "nlayers": [40], "pub": [1024, 10000], "nested": [21036, 5500000],
                 "btctx": [4000000], "sizeofsize": [4], "hdr": [80, 65], "layer": [32], "subject": [32], "sig": [72], "key": [88],
-                "addr": [30], "althash": [32], "keystone": [255], "noutputs": [255], "sbl": [255], "var": [255]}
+                "eid": [32, 12], "ehash": [24, 32, 255], "addr": [30], "althash": [32], "keystone": [255], "noutputs": [255], "sbl": [255], "var": [255]}
 
 
 def hostile_variants(r, c, t, v, k):
@@ -473,7 +532,9 @@ def write_cases(path, cases):
 
 
 def run_model(model, path):
-    return vlib.run_lines([model], path, timeout=3000)
+    # the extracted functions recurse once per byte/element: give the driver a large stack
+    return vlib.run_lines(["bash", "-c", "ulimit -s 4000000 2>/dev/null || ulimit -s unlimited 2>/dev/null; exec %s" % model],
+                          path, timeout=3000)
 
 
 def run_impl_bisect(ctx, harness, cases, timeout, env=None, tag="impl"):
